@@ -72,6 +72,9 @@ pub uninterp spec fn f64_is_nan(f: f64) -> bool;
 pub uninterp spec fn f64_is_finite(f: f64) -> bool;
 pub uninterp spec fn f64_abs(f: f64) -> f64;
 pub uninterp spec fn f64_trunc(f: f64) -> f64;
+pub uninterp spec fn f64_neg(f: f64) -> f64;
+/// `-f` on a double (R6: Verus has no unary minus on floating point; the value is uninterpreted, bit-precise on the Kani side)
+#[verifier::external_body] pub fn __f64_neg(a: f64) -> (r: f64) ensures r == f64_neg(a) { -a }
 pub assume_specification[f64::is_nan](f: f64) -> (r: bool) ensures r == f64_is_nan(f);
 pub assume_specification[f64::is_finite](f: f64) -> (r: bool) ensures r == f64_is_finite(f);
 pub assume_specification[f64::abs](f: f64) -> (r: f64) ensures r == f64_abs(f);
